@@ -1,5 +1,7 @@
 """C09 - GeometricReservoirStorage inclusion law, acceptance probability, uniform slot; p=1 always stores."""
 import collections
+import copy
+import pickle
 import math
 import random
 
@@ -95,6 +97,9 @@ def main(run):
                     (upd or st.update)(x)
                 except Exception:
                     pass
+                if _ % 5 == 3 and i in (3, nmax // 2):      # checkpointing: the stream continues on a deep copy / pickle round trip
+                    st = copy.deepcopy(st) if (i + _) % 2 else pickle.loads(pickle.dumps(st))
+                    upd = st.update if upd is not None else None
                 cur = [(d["t"] if isinstance(d, dict) else d[1]) for d in st.get_data()[0]]
                 if i >= k and len(cur) != k:
                     fails.append(("replacement-shape", f"k={k} p={pe}: a full reservoir holds {len(cur)} items after update {i + 1}"))
@@ -181,7 +186,7 @@ def main(run):
     run.notes["max_min_detectable_deviation"] = max(mdd, ct.max_mdd)
     # ---- exact one-step transition law under the implementation's own draws (no sampling error): from a full reservoir the
     #      next observation must enter with probability exactly p and replace each slot with probability exactly p/k
-    import copy
+    pass  # (copy is imported at module level)
     from ..exactlaw import exact_law, Budget
     xrnd = random.Random(run.seed + 555)
     import fractions
